@@ -782,6 +782,10 @@ impl<'a> Interp<'a> {
             if !is_ok {
                 let cls = if declared.is_some() || (declared_size.is_some() && streamed) { "commit-accept" } else { "write-ok" };
                 self.viol(cls, format!("{}/{}/{}/{}", cls, shape, flav, Self::bad_result_detail(r)), format!("write of {} B ({}) must succeed on a healthy filesystem but gave {}", written, algo, r));
+                if self.m.cleared {
+                    // "clearing leaves an empty, still usable cache": a write that fails after a clear of this history
+                    self.viol("removal", format!("removal/unusable-after-clear/{}/{}", flav, Self::bad_result_detail(r)), format!("after a clear the cache must stay usable, but a write of {} B gave {}", written, r));
+                }
                 self.after_failed_write(st, key, pre_list);
                 return;
             }
